@@ -45,6 +45,12 @@ CLAIMED = {
         "callbacks are functions of the node; RANDOM_ORDER/UNORDERED compared as multisets",
         "DESIGN.md §6 C06",
     ),
+    "C07": (
+        "Lean 4 theorems (copies = relabelled values with fresh ids; frame across trees) + differential correspondence over multi-tree histories + faithfulness oracle",
+        "Copies are modelled by the code's own recursion (`_add_from`) creating fresh nodes; theorems state that the copy carries the same data objects, data_ids and kinds position by position, that the source is unchanged, and that an operation on one tree leaves every other tree unchanged. Tie: multi-tree histories with ~45% copy operations by every route, then further mutations on either side; every tree is compared with the model after every step.",
+        "known finding KF-C07-typed-copy-default-kind (pinned by a test) is mirrored by the model and reported as KNOWN-FINDING",
+        "DESIGN.md §6 C07",
+    ),
     "C09": (
         "Lean 4 theorems (search loop with counter/break = filter+take; index access decision table) + differential correspondence",
         "Theorems in lean/Nutree/Properties/C09.lean: the `_search` loop equals the matching nodes of the pre-order cut to the first k; find_first = head; index lookups with a limit are a prefix of the clone list; tree[key] resolves node_id, then data_id, then data with KeyError/Ambiguous/ValueError as specified. Tie: all small forests with clones x start nodes x patterns x limits x key kinds.",
@@ -56,6 +62,12 @@ CLAIMED = {
         "Theorems in lean/Nutree/Properties/C10.lean: every relationship accessor, modelled as the implementation computes it (search of the parent by identity, parent-chain walks, identity index), equals its path-based specification on every tree with pairwise distinct node ids; pairs: descendant/ancestor = proper prefix, common ancestor = longest common prefix. Tie: exhaustive small-scope + random differential run (33 accessors per node, 3 per ordered pair), including ==-equal siblings.",
         "the stored _parent links are observed through the API, not modelled as state",
         "DESIGN.md §6 C10",
+    ),
+    "C13": (
+        "Lean 4 theorems (operations are validate-then-apply: a refusal returns the old state; WF after failing callbacks) + fault enumeration on the real code",
+        "In the model every single-node operation validates before it mutates, so a refusal carries no new state; multi-node operations are proved to refuse up front; WF is preserved when a callback fails. Tie: every invalid argument on every small forest, malformed-heavy histories, raising calc_data_id / sort-key callbacks, and every read-only operation with its callback raising at the k-th call.",
+        "known finding KF-C13-remove-keep-clones-partial is mirrored by the model and reported as KNOWN-FINDING",
+        "DESIGN.md §6 C13",
     ),
     "C15": (
         "Lean 4 theorems (list lemmas: loops = filter by kind) + differential correspondence",
